@@ -206,6 +206,14 @@ def r3_r4(run: Run, src, cg):
         for d in f.node.decorator_list:
             dn = ast.unparse(d.func if isinstance(d, ast.Call) else d)
             if dn.split('.')[-1] in ('lru_cache', 'cache', 'memoize', 'memoized', 'cached'):
+                # memoising a PURE constructor of an immutable value from immutable arguments (compiling a pattern text) is harmless
+                body_ = [x for x in f.node.body if not (isinstance(x, ast.Expr) and isinstance(x.value, ast.Constant))]
+                if len(body_) == 1 and isinstance(body_[0], ast.Return) and isinstance(body_[0].value, ast.Call) and \
+                        ast.unparse(body_[0].value.func) in ('re.compile', 'compile') and \
+                        not any(isinstance(x, ast.Call) and x is not body_[0].value for x in ast.walk(body_[0].value)):
+                    run.ok('C09.R4', f'{f.qualname}/@{dn}', 'memoised pure pattern compilation (immutable arguments and result)',
+                           loc=loc_of(f.module.path, f.node))
+                    continue
                 run.bad('C09.R4', f'{f.qualname}/@{dn}', 'memoised-translation-step',
                         f'{f.qualname} (reachable from _translate: {" -> ".join(cg.path_to(reach, key)[-4:])}) is memoised with @{dn}: '
                         f'the cache is process-global and keyed by the arguments, so objects created and mutated during an earlier '
@@ -224,25 +232,59 @@ def r3_r4(run: Run, src, cg):
             attr = st.attr or st.target
             tkey = (f.qualname, attr)
             loc = loc_of(f.module.path, st.node)
-            if tkey not in GLOBAL_TABLE:
-                run.bad('C09.R4', f'{f.qualname}/{st.target}', 'unconfirmed-global-write',
-                        f'{f.qualname} (reachable from _translate) writes the process-global `{st.target}`; it is not one of the '
-                        f'confirmed lazily initialised token tables, so earlier translations or other threads can influence the '
-                        f'output', loc=loc)
-                continue
-            # guarded test-before-set, value independent of arguments other than cls
+            # a process-global store is harmless exactly when it is a lazily initialised table: written under a test of the stored
+            # state (test-before-set) and with a key and a value that depend on nothing but the class -- then every translation
+            # and every thread can only ever store the same thing.  Anything computed from the arguments (tokens, cells, formula
+            # text) makes the output depend on what was translated before.
             parents = parent_map(f.node)
             conds = path_conditions(f.node, st.node, parents)
-            guarded = any(('cls.' in ast.unparse(t)) and pol in (True, False) for t, pol in conds)
             params = set(f.params) - {'cls', 'self'}
+            local_defs = {}
+            for a_ in ast.walk(f.node):
+                if isinstance(a_, ast.Assign) and len(a_.targets) == 1 and isinstance(a_.targets[0], ast.Name):
+                    local_defs.setdefault(a_.targets[0].id, []).append(a_.value)
+
+            def taint_of(e, depth=0):
+                out = set()
+                for x in ast.walk(e):
+                    if isinstance(x, ast.Name):
+                        if x.id in params:
+                            out.add(x.id)
+                        elif x.id in local_defs and depth < 4:
+                            for v_ in local_defs[x.id]:
+                                out |= taint_of(v_, depth + 1)
+                return out
             val = getattr(st.node, 'value', None)
             tainted = set()
             if val is not None:
-                tainted = {x.id for x in ast.walk(val) if isinstance(x, ast.Name)} & params
-            run.check(guarded and not tainted, 'C09.R4', f'{f.qualname}/{st.target}', 'global-write-discipline',
-                      f'the write to `{st.target}` is {"not guarded by a test of the stored state" if not guarded else ""}'
-                      f'{" and " if not guarded and tainted else ""}{"computed from the arguments " + str(sorted(tainted)) if tainted else ""}'
-                      f': two translations could observe different tables', fact=GLOBAL_TABLE[tkey], loc=loc)
+                tainted |= taint_of(val)
+            tgt = st.node.targets[0] if isinstance(st.node, ast.Assign) else getattr(st.node, 'target', None)
+            if isinstance(tgt, ast.Subscript):
+                tainted |= taint_of(tgt.slice)
+            if st.kind == 'mutating-call':
+                for a_ in getattr(st.node, 'args', []):
+                    tainted |= taint_of(a_)
+                if st.node.func.attr in ('clear', 'pop', 'popitem', 'remove', 'discard'):
+                    tainted.add('<removal>')
+            base_txt = (st.target or '').split('[')[0]
+
+            def tests_state(t):
+                txt = ast.unparse(t)
+                if 'cls.' in txt or base_txt and base_txt in txt:
+                    return True
+                return any(isinstance(x, ast.Name) and x.id in local_defs and
+                           any(base_txt and base_txt in ast.unparse(v_) for v_ in local_defs[x.id]) for x in ast.walk(t))
+            guarded = any(tests_state(t) for t, pol in conds)
+            known = GLOBAL_TABLE.get(tkey, 'lazily initialised table: test-before-set, key and value depend on the class only')
+            if tainted:
+                run.bad('C09.R4', f'{f.qualname}/{st.target}', 'unconfirmed-global-write',
+                        f'{f.qualname} (reachable from _translate) writes the process-global `{st.target}` with data computed from its '
+                        f'arguments {sorted(tainted)}: what one translation (or a rejected formula) leaves there is seen by the next, so '
+                        f'the output depends on process history', loc=loc)
+                continue
+            run.check(guarded, 'C09.R4', f'{f.qualname}/{st.target}', 'global-write-discipline',
+                      f'the write to the process-global `{st.target}` is not guarded by a test of the stored state (test-before-set): '
+                      f'two translations could observe different tables', fact=known, loc=loc)
     if n < 100:
         raise AnalysisError('C09.R3', f'only {n} functions are reachable from _translate (call graph resolution broke?)')
     # a fresh Context per translation, never stored globally
